@@ -210,8 +210,15 @@ def opc2_target_decoder(ctx: Ctx) -> None:
     for t in tries:
         for h in t.handlers:
             names = [norm(e) for e in h.type.elts] if isinstance(h.type, ast.Tuple) else ([norm(h.type)] if h.type is not None else [])
+            hb = list(h.body)
+            # `if <option that is off by default>: raise` in front: the default path is what follows
+            dflt_off = {a_.arg for a_, d_ in list(zip(reversed(outer.args.args), reversed(outer.args.defaults))) + list(zip(outer.args.kwonlyargs, outer.args.kw_defaults))
+                        if isinstance(d_, ast.Constant) and d_.value is False}
+            while hb and isinstance(hb[0], ast.If) and isinstance(hb[0].test, ast.Name) and hb[0].test.id in dflt_off and not hb[0].orelse \
+                    and not any(isinstance(w_, ast.Name) and w_.id == hb[0].test.id and isinstance(w_.ctx, ast.Store) for w_ in ast.walk(outer)):
+                hb = hb[1:]
             if ("ValueError" in names or "Exception" in names) and ("IndexError" in names or "Exception" in names or "LookupError" in names) \
-                    and len(h.body) == 1 and isinstance(h.body[0], ast.Return) and norm(h.body[0].value) == "None":
+                    and len(hb) == 1 and isinstance(hb[0], ast.Return) and norm(hb[0].value) == "None":
                 okx = True
     if okx:
         ctx.R.ok("OPC-2b", "ValueError / IndexError from the decoder become varname None")
